@@ -183,11 +183,13 @@ class HTTPDriver(explore.Driver):
 
 def grid(ctx):
     cfgs = []
-    css = (4, 5) if ctx.quick else (4, 5, 8)
+    css = (4, 5) if ctx.quick else (3, 4, 5, 8)
     for cs in css:
-        for L in sorted({1, cs - 1, cs, cs + 1, 2 * cs, 2 * cs + 1,
-                         3 * cs - 1}):
-            for keep in (1, 2, 3):
+        lengths = {1, cs - 1, cs, cs + 1, 2 * cs, 2 * cs + 1, 3 * cs - 1}
+        if not ctx.quick:
+            lengths |= {3 * cs, 4 * cs, 4 * cs + 1, 5 * cs - 1}
+        for L in sorted(lengths):
+            for keep in ((1, 2, 3) if ctx.quick else (1, 2, 3, 4)):
                 cfgs.append((L, cs, keep, "rfc"))
             if not ctx.quick or cs == 4:
                 cfgs.append((L, cs, 2, "strict416"))
@@ -460,7 +462,7 @@ def _s3_boto_case(L):
 
 
 def run(ctx):
-    depth = 5 if ctx.quick else 9
+    depth = 10 if ctx.quick else 14
     dev = 1
     cfgs = grid(ctx)
     results = par.pmap(_run_cfg, [(c, depth, dev) for c in cfgs])
